@@ -157,7 +157,10 @@ def execute(scn, keep_log=False, hook=None):
         if not viol and len(bus.frames) != nframes:
             viol.append({'clause': 'not-quiet', 'rank': 4, 'msg': '%d further frames after the settle bound' % (len(bus.frames) - nframes)})
         viol += common.thread_violations(w) if not viol else []
-    res = {'violations': viol[:5], 'stats': dict(stats, frames=len(bus.frames)), 'nontrivial': stats['contended_addresses'] > 0,
+    aacs = {c['stack']: bool(c['name'] >> 63) for c in scn['claims']}
+    order = sorted(scn['claims'], key=lambda c: c['name'])
+    states = {repr(tuple((aacs[c['stack']], STATE.get(snap1[c['stack']][0]), (snap1[c['stack']][1] or 0) - c['addr'] if snap1[c['stack']][0] == 2 else None) for c in order))}
+    res = {'violations': viol[:5], 'stats': dict(stats, frames=len(bus.frames)), 'nontrivial': stats['contended_addresses'] > 0, 'states': states,
            'digest': sim.digest(), 'sim_s': (sim.now - t0) / 1e9,
            'summary': '%d CAs, final %s' % (n, {k: (STATE.get(s), a) for k, (s, a) in snap1.items()})}
     if keep_log:
